@@ -300,13 +300,76 @@ func (g *gen) c11RuneSweep() Op {
 	return Op{K: "runesweep", N: st, A: []Val{{K: "int", I: int64(n)}}}
 }
 
+// c11OddFormat assembles 1-3 directives from the grammar of odd pieces.
+func (g *gen) c11OddFormat() Op {
+	idx := []string{"", "", "", "[1]", "[2]", "[0]", "[00]", "[3]", "[9]", "[]", "[x]", "[-1]", "[99999999999999999999]", "[ 1]"}
+	wid := []string{"", "", "", "5", "0", "12", "*", "[1]*", "[0]*", "[2]*", "1000001", "2000", "-3"}
+	prec := []string{"", "", "", ".2", ".", ".0", ".*", ".[1]*", ".[0]*", ".1000001", ".[2]*"}
+	flags := []string{"", "", "", "+", "-", "#", " ", "0", "+-", "-0", "# +", "00"}
+	verbs := []string{"v", "d", "s", "x", "q", "c", "U", "T", "t", "e", "b", "o", "X", "!", "z", "é", "日", "", "w", "v", "d", "s"}
+	clean := func() string {
+		s := strings.ToValidUTF8(g.lit(), "")
+		s = strings.ReplaceAll(s, mStart, "")
+		s = strings.ReplaceAll(s, mEnd, "")
+		if len(s) > 30 {
+			s = strings.ToValidUTF8(s[:30], "")
+		}
+		return s
+	}
+	var sb strings.Builder
+	var lits []Step
+	lit := func() {
+		l := clean()
+		// keep the literal free of characters the directive grammar could
+		// swallow (digits, brackets, flags), and unambiguous to find
+		l = "L" + strings.Map(func(r rune) rune {
+			if r >= '0' && r <= '9' || strings.ContainsRune("[]*.+-# %", r) {
+				return '_'
+			}
+			return r
+		}, l) + "."
+		sb.WriteString(l)
+		lits = append(lits, Step{A: "lit", S: Str(l)})
+	}
+	n := 1 + g.r.Intn(3)
+	for i := 0; i < n; i++ {
+		lit()
+		v := g.pick(verbs)
+		if v == "" {
+			v = "d" // an empty verb would swallow the first rune of the next literal
+		}
+		sb.WriteString("%" + g.pick(flags) + g.pick(idx) + g.pick(wid) + g.pick(prec) + g.pick(idx) + v)
+	}
+	if g.chance(0.7) {
+		lit()
+	} else if g.chance(0.5) {
+		sb.WriteString("%" + g.pick(flags) + g.pick(idx) + g.pick(wid)) // a directive cut short at the end
+	}
+	var args []Val
+	for i, na := 0, g.r.Intn(4); i < na; i++ {
+		switch g.r.Intn(4) {
+		case 0:
+			args = append(args, Val{K: "str", S: Str(clean())})
+		case 1:
+			args = append(args, Val{K: "int", I: int64(g.r.Intn(40) - 5)})
+		case 2:
+			args = append(args, Val{K: "int", I: int64(g.r.Intn(3000))})
+		default:
+			args = append(args, Val{K: "f64", I: int64(g.r.Intn(100))})
+		}
+	}
+	return Op{K: "fmtsweep", F: Str(sb.String()), A: args, S: lits}
+}
+
 // domain-edge ops for the first sentence of C11 (sampled, see DESIGN §5.1)
 func (g *gen) c11Edge() Op {
-	switch g.r.Intn(5) {
+	switch g.r.Intn(7) {
 	case 0, 1:
 		return g.c11Conserve()
 	case 2:
 		return g.c11RuneSweep()
+	case 3, 4:
+		return g.c11OddFormat()
 	}
 	runes := []int64{-1, -2, 0xd800, 0xdbff, 0xdc00, 0xdfff, 0x110000, 0x7fffffff, -0x80000000, 0, 0x10ffff, 0xfffd, 0x2039, 0x203a}
 	ru := runes[g.r.Intn(len(runes))]
